@@ -18,6 +18,7 @@ import (
 type nameRef struct {
 	fi    int  // field index; -1 = "*"
 	byCol bool // spelled as the column name instead of the field name
+	qual  bool // column spelling qualified with the statement's table: "<table>.<column>"
 }
 
 func (n nameRef) text(m *model) string {
@@ -25,9 +26,20 @@ func (n nameRef) text(m *model) string {
 		return "*"
 	}
 	if n.byCol {
+		if n.qual {
+			return m.table + "." + m.fields[n.fi].col
+		}
 		return m.fields[n.fi].col
 	}
 	return m.fields[n.fi].name
+}
+
+// spelling of one name: by field name, by column name, or (1 column spelling in 6) by column name
+// qualified with the table the statement writes.
+func (g *gen) ref(f *field) nameRef {
+	n := nameRef{fi: f.idx, byCol: !f.ignored && g.r.Bool()}
+	n.qual = n.byCol && g.r.Chance(1, 6)
+	return n
 }
 
 // mval is one value handed to gorm for one field.
@@ -152,7 +164,13 @@ type op struct {
 	valueIsModel bool
 	conds        []cond
 	sel, omit    []nameRef
-	selSlice     bool
+	// how the lists of names reach Select / Omit. selForm: "variadic" Select(a, b, c) | "slice"
+	// Select([]string{a, b, c}) | "str+slice" Select(a, []string{b, c}) | "slice+str"
+	// Select([]string{a, b}, c) | "slice+slice" Select([]string{a}, []string{b, c}).
+	// omitJoin: "" = Omit(a, b, c); otherwise ONE string holding the names joined by this separator
+	// (a comma with optional blanks around it), Omit("a, b, c")
+	selForm  string
+	omitJoin string
 	selMode      string
 	recs         []*rec
 	isMap        bool
@@ -519,7 +537,7 @@ func (g *gen) names(cands []*field, prefer []int, lo, hi int) []nameRef {
 			continue
 		}
 		seen[f.idx] = true
-		out = append(out, nameRef{fi: f.idx, byCol: !f.ignored && g.r.Bool()})
+		out = append(out, g.ref(f))
 	}
 	return out
 }
@@ -544,7 +562,27 @@ func (g *gen) selOmit(o *op, modes []string, prefer []int) {
 	case "omit-star":
 		o.omit = []nameRef{{fi: -1}}
 	}
-	o.selSlice = g.r.Chance(1, 4)
+	o.selForm = core.Pick(g.r, selForms)
+}
+
+var (
+	selForms = []string{"variadic", "variadic", "variadic", "slice", "slice", "str+slice", "slice+str", "slice+slice"}
+	// separators of a comma-joined Omit list
+	omitSeps = []string{",", ", ", ", ", " , "}
+)
+
+// listForms decides, once the lists of names are final, how they are handed to gorm.
+func (g *gen) listForms(o *op) {
+	if o.selForm == "" {
+		o.selForm = "variadic"
+	}
+	if len(o.sel) < 2 && o.selForm != "slice" {
+		o.selForm = "variadic"
+	}
+	// Omit takes one comma-joined string as well; a single name has no comma
+	if len(o.omit) >= 2 && g.r.Chance(2, 5) {
+		o.omitJoin = core.Pick(g.r, omitSeps)
+	}
 }
 
 var (
@@ -712,7 +750,7 @@ func (g *gen) createKeyNames(o *op, auto bool) {
 	intKey := !m.composite() && m.pk.k.class != "string"
 	if intKey && r.Chance(1, 5) {
 		o.dropKey = true
-		ref := nameRef{fi: m.pk.idx, byCol: r.Bool()}
+		ref := g.ref(m.pk)
 		switch o.selMode {
 		case "sel":
 			// not selected
@@ -729,7 +767,7 @@ func (g *gen) createKeyNames(o *op, auto bool) {
 	}
 	if o.selMode == "sel" || o.selMode == "sel+omit" {
 		for _, f := range m.pks {
-			o.sel = append(o.sel, nameRef{fi: f.idx, byCol: r.Bool()})
+			o.sel = append(o.sel, g.ref(f))
 		}
 	}
 }
@@ -965,6 +1003,7 @@ func (g *gen) genOp(kind string) *op {
 	default:
 		panic("kind " + kind)
 	}
+	g.listForms(o)
 	// the chain calls commute: one operation in three runs them in a random order
 	if r.Chance(1, 3) {
 		o.chainOrder = r.Perm(5)
@@ -1085,10 +1124,21 @@ func exec(db *gorm.DB, m *model, o *op) (string, *gorm.DB) {
 				for _, n := range o.sel {
 					ns = append(ns, n.text(m))
 				}
-				if o.selSlice {
+				sl := func(x []string) string { return "[]string{" + quoteAll(x) + "}" }
+				switch {
+				case o.selForm == "slice":
 					tx = tx.Select(ns)
-					desc += ".Select([]string{" + quoteAll(ns) + "})"
-				} else {
+					desc += ".Select(" + sl(ns) + ")"
+				case o.selForm == "str+slice" && len(ns) > 1:
+					tx = tx.Select(ns[0], ns[1:])
+					desc += ".Select(" + strconv.Quote(ns[0]) + ", " + sl(ns[1:]) + ")"
+				case o.selForm == "slice+str" && len(ns) > 1:
+					tx = tx.Select(ns[:len(ns)-1], ns[len(ns)-1])
+					desc += ".Select(" + sl(ns[:len(ns)-1]) + ", " + strconv.Quote(ns[len(ns)-1]) + ")"
+				case o.selForm == "slice+slice" && len(ns) > 1:
+					tx = tx.Select(ns[:1], ns[1:])
+					desc += ".Select(" + sl(ns[:1]) + ", " + sl(ns[1:]) + ")"
+				default:
 					var rest []interface{}
 					for _, n := range ns[1:] {
 						rest = append(rest, n)
@@ -1104,8 +1154,14 @@ func exec(db *gorm.DB, m *model, o *op) (string, *gorm.DB) {
 				for _, n := range o.omit {
 					ns = append(ns, n.text(m))
 				}
-				tx = tx.Omit(ns...)
-				desc += ".Omit(" + quoteAll(ns) + ")"
+				if o.omitJoin != "" && len(ns) > 1 {
+					one := strings.Join(ns, o.omitJoin)
+					tx = tx.Omit(one)
+					desc += ".Omit(" + strconv.Quote(one) + ")"
+				} else {
+					tx = tx.Omit(ns...)
+					desc += ".Omit(" + quoteAll(ns) + ")"
+				}
 			}
 		},
 		func() { // Clauses
